@@ -42,7 +42,7 @@ func init() {
 	batch := []ruleFn{ruleResultIndex, ruleClosureIsolation, ruleRespondOnce, ruleSemaphorePairing(scHTTP), ruleGoSites}
 	register("C08", "", append(batch, ruleAMR)...)
 	register("C07", "", ruleRespondOnce, ruleResultIndex, ruleSemaphorePairing(scHTTP), ruleGoSites)
-	clean := ruleExecuteThenClean("pebbles.(*Gateway).queryHandler$1", "pebbles.(*Gateway).newSubscriptionEntry$1")
+	clean := ruleExecuteThenClean("queryHandler.map", "executorFn")
 	register("C01", "", clean, rulePrepareResponse)
 	register("C17", "", clean, rulePrepareResponse)
 	scAll := scope{"module", []string{"pebbles.(*Gateway).Handler", "pebbles.NewGateway", "planner.(*CachedPlanner).Plan", "merger.(SanitizeNodeMergerFunc).Merge"}}
@@ -66,7 +66,7 @@ func init() {
 	register("C13", "", ruleErrStructure)
 	register("C20", "", ruleErrStructure)
 	register("C15", "", ruleIntrospectionQuery, ruleDecodedFieldsUsed, ruleKindGuardsReader)
-	register("C16", "", ruleResolverSpec, ruleIntrospectionSources, r7(scope{"resolver", []string{"introspection.(*IntrospectionResolver).ResolveIntrospectionFields"}}), ruleMapRanges(scope{"resolver", []string{"introspection.(*IntrospectionResolver).ResolveIntrospectionFields"}}, 2))
+	register("C16", "", ruleResolverSpec, ruleIntrospectionSources, r7(scope{"resolver", []string{"introspection.(*IntrospectionResolver).ResolveIntrospectionFields"}}), ruleMapRanges(scope{"resolver", []string{"introspection.(*IntrospectionResolver).ResolveIntrospectionFields"}}, 1))
 	register("C19", "", ruleVariableWrites, ruleEncodings("upload"), ruleUploadParts, ruleMapRanges(scUpload, 3))
 	register("C01", "", ruleEncodings("insertion"))
 	register("C14", "", ruleKeyReadSet)
